@@ -133,9 +133,11 @@ func (r *runner) ask(line, actual string) bool {
 		exp = "driver-error " + err.Error()
 	}
 	if exp != actual {
+		// Record the disagreement, then go on without the model: if the change behind it breaks the
+		// property, the monitor gets the chance to show it on the rest of the history.
 		r.out.mismatch = "FilePool correspondence: " + line
 		r.out.expected, r.out.actual = exp, actual
-		return false
+		r.drv = nil
 	}
 	return true
 }
@@ -1014,6 +1016,12 @@ func main() {
 		min := lines
 		if fails(lines) {
 			min = hx.Shrink(lines, fails)
+		} else if !wantMonitor {
+			// a mismatch followed by a later monitor hit is reported as the monitor hit
+			wantMonitor = true
+			if fails(lines) {
+				min = hx.Shrink(lines, fails)
+			}
 		}
 		r := run(min, drv)
 		if r.monitor == "" && r.mismatch == "" {
@@ -1052,7 +1060,13 @@ func main() {
 		histories = 4000 * o.Scale
 	}
 	rng := hx.NewRand(o.Seed)
-	for h := 0; h < histories && len(res.Findings) == 0; h++ {
+	var firstMismatch []string
+	var firstMismatchOut outcome
+	extra := -1 // histories still to run after the first model mismatch, looking for a monitor hit
+	for h := 0; h < histories && len(res.Findings) == 0 && extra != 0; h++ {
+		if extra > 0 {
+			extra--
+		}
 		lines, out := generate(rng, drv)
 		res.Evaluations += out.steps
 		res.TracesVsImpl++
@@ -1068,9 +1082,15 @@ func main() {
 			res.Histogram[k] += v
 		}
 		res.History(lines, out.flags["sector-reuse"] && out.flags["shrink-mid-sector"] && out.flags["two-files-written"])
-		if out.monitor != "" || out.mismatch != "" {
+		if out.monitor != "" {
 			report(lines, out)
+		} else if out.mismatch != "" && firstMismatch == nil {
+			firstMismatch, firstMismatchOut = lines, out
+			extra = 400
 		}
+	}
+	if len(res.Findings) == 0 && firstMismatch != nil {
+		report(firstMismatch, firstMismatchOut)
 	}
 	res.ModelLines = drv.Lines
 	res.Write(o)
